@@ -316,6 +316,41 @@ def interleave_work(item):
     return acc
 
 
+def foreign_child_work(item):
+    """every rule with one foreign child element: the node is invalid anyway, but the CONTENT errors collected must
+    still be exactly those the content constraints imply (children only stand in for text under mixed-content rules)"""
+    tier, rule_name = item
+    tab = ruleinfo.table()
+    c = tab[rule_name][2]
+    crules, enum = c.get("content_rules", []), c.get("content_enum")
+    mixed = rule_name in e2.MIXED_RULES
+    core.reset_store()
+    node, direct = ruleinfo.parent_for(rule_name, node_id="P")
+    node.add_child(Node("zzForeignChild"))
+    acc = core.Acc()
+    for s_ in lists(tier)["generic"] + lists(tier)["num_boundary"][:60]:
+        node.content = s_
+        v = e4.verdict(crules, enum, mixed, True, s_)
+        case = {"rule": rule_name, "variant": "foreign_child", "content": s_}
+        errs = []
+        try:
+            ruleinfo.validate_node(node, rule_name, direct, errs)
+        except Exception as e:  # noqa
+            acc.add_problem(problem("collecting_raised", case, expected="no exception", observed=repr(e), rule=rule_name,
+                                    mode="collecting", exc=type(e).__name__))
+            continue
+        content_codes = [e[0].name for e in errs if isinstance(e, tuple) and getattr(e[0], "name", "").startswith("CONTENT_")]
+        acc.count("strings")
+        acc.outcome(v)
+        if v == e4.ACCEPT and content_codes:
+            acc.add_problem(problem("must_accept_rejected", case, expected="no content error (the child error is a separate matter)",
+                                    observed=content_codes, rule=rule_name))
+        if v == e4.REJECT and not content_codes:
+            acc.add_problem(problem("must_reject_accepted", case, expected="a content error besides the child error",
+                                    observed=[e[0].name for e in errs if isinstance(e, tuple)], rule=rule_name))
+    return acc
+
+
 def enum_work(item):
     tier, rule_name = item
     tab = ruleinfo.table()
@@ -331,6 +366,9 @@ def enum_work(item):
 
 
 def replay(case):
+    if case.get("variant") == "foreign_child":
+        a = foreign_child_work(("quick", case["rule"]))
+        return [p for ps in a.problems.values() for p in ps if core.jsonable(p["case"]) == case]
     ctx = Ctx(case["rule"], case.get("variant", "plain"))
     _, probs = run_one(ctx, case["content"])
     return probs
@@ -360,6 +398,7 @@ def explore(tier):
     items = plan(tier)
     accs = core.pmap(work, items)
     accs += core.pmap(enum_work, [(tier, rn) for rn in sorted(tab) if tab[rn][2].get("content_enum")])
+    accs += core.pmap(foreign_child_work, [(tier, rn) for rn in sorted(tab)])
     accs += core.pmap(interleave_work, [(tier, rn, first) for rn in sorted(tab) if rn in e2.MIXED_RULES and ruleinfo.automata(rn).names
                                         for first in ("with_child", "plain")])
     acc = core.merge_all(accs)
